@@ -10,7 +10,7 @@ from mirsym import validate as V
 LENGTHS = {
     # property -> tier -> list of buffer lengths
     'C02': {'quick': [0, 1, 4, 6, 7, 8, 13, 14, 15], 'thorough': list(range(0, 33))},
-    'C03': {'quick': [7, 14], 'thorough': [7, 8, 14, 15, 32]},
+    'C03': {'quick': [7, 14, 16], 'thorough': [7, 8, 9, 14, 15, 16, 32]},
     'C04': {'quick': [7, 14], 'thorough': [7, 8, 14, 15, 32]},
     'C06': {'quick': [7, 14], 'thorough': [7, 8, 14, 15, 32]},
     'C08': {'quick': [14], 'thorough': [14, 15, 32]},
